@@ -9,6 +9,7 @@ LINE-event yield injection inside chartparse code, so switches land between char
 from __future__ import annotations
 
 import hashlib
+import io
 import json
 import os
 import subprocess
@@ -37,7 +38,7 @@ CHILD = os.path.join(env.VERIF, "vmon", "c17_child.py")
 def required(tier):
     return ["history:after_failure", "history:repeat_same_text", "history:after_other_resolution", "threads:switches_inside_chartparse>=100",
             "threads:2", "threads:16", "baseline:valid", "baseline:failing", "selection_cases", "read_by_path_cases", "history:late_failure_then_sibling_with_other_tempi", "history:more_than_100000_skipped_lines_in_one_process",
-            "history:more_than_2000_text_events_in_one_process",
+            "history:more_than_2000_text_events_in_one_process", "history:parsed_inside_the_except_handler_of_a_failed_parse",
             "cold_start:first_parses_of_the_process_were_concurrent"]
 
 
@@ -125,8 +126,39 @@ def outcome_of(text, want=None, path_bytes_hex=None) -> dict:
         order = [(i.name, [d.name for d in m]) for i, m in ch.instrument_tracks.items()]
         rendered = hashlib.sha256((str(ch) + "\x00" + repr(ch)).encode("utf-8", "surrogatepass")).hexdigest()
         return {"ok": True, "obs": hashlib.sha256(observe.digest(harness.obs(ch)).encode()).hexdigest(), "order": order,
-                "rendered": rendered, "logs": logs}
+                "rendered": rendered, "logs": logs, "answers": answers(ch)}
     return {"ok": False, "err": [type(out.exc).__name__, str(out.exc)], "logs": logs}
+
+
+def answers(ch) -> list:
+    """an identical chart answers identically: a fixed set of public queries (tick-to-time in both forms, rates) put to every
+    returned chart — in a long-lived process these follow the same queries put to OTHER charts"""
+    out = []
+    try:
+        be = ch.sync_track.bpm_events
+        n = len(be)
+        ticks = [0, be[n // 2].tick + 1, be[n - 1].tick, be[n - 1].tick + 1000, 7]
+    except Exception as e:  # noqa
+        return [f"sync not readable: {type(e).__name__}"]
+
+    def ask(label, fn):
+        try:
+            out.append([label, str(fn())])
+        except Exception as e:  # noqa
+            out.append([label, f"{type(e).__name__}: {e}"[:160]])
+
+    for q in ticks:
+        ask(f"no_optimize_return({q})", lambda: be.timestamp_at_tick_no_optimize_return(q))
+        ask(f"timestamp_at_tick({q})", lambda: be.timestamp_at_tick(q))
+    for inst, m in ch.instrument_tracks.items():
+        for diff, tr in m.items():
+            if tr.note_events:
+                last = tr.note_events[-1].tick
+                ask(f"nps({inst.name},{diff.name})", lambda: ch.notes_per_second(inst, diff))
+                ask(f"nps({inst.name},{diff.name},0,{last + 1})", lambda: ch.notes_per_second(inst, diff, 0, last + 1))
+                ask(f"nps({inst.name},{diff.name},{last},{last + 50})", lambda: ch.notes_per_second(inst, diff, last, last + 50))
+                return out
+    return out
 
 
 def corpus(rng, n):
@@ -241,6 +273,9 @@ def corpus(rng, n):
     return texts
 
 
+FIRST_IMPORTS = ["chart", "instrument", "sync", "track", "globalevents", "metadata", "tick", "event"]  # which module a baseline imports first
+
+
 def baselines(texts):
     """one fresh interpreter per text"""
     outs = []
@@ -248,7 +283,8 @@ def baselines(texts):
         # each fresh interpreter gets ITS OWN string-hash seed (this process runs with seed 0): "a fresh interpreter" is any
         # interpreter, so nothing observable may depend on set/dict hashing order
         p = subprocess.run([env.PY, CHILD], input=json.dumps([{"text": t["text"], "want": t["want"], "path_bytes_hex": t.get("path_bytes_hex")}]),
-                           capture_output=True, text=True, timeout=300, env=env.child_env({"PYTHONHASHSEED": str(1 + 7 * k)}), cwd=env.VERIF)
+                           capture_output=True, text=True, timeout=300,
+                           env=env.child_env({"PYTHONHASHSEED": str(1 + 7 * k), "VMON_FIRST_IMPORT": FIRST_IMPORTS[k % len(FIRST_IMPORTS)]}), cwd=env.VERIF)
         if p.returncode != 0 or not p.stdout.strip():
             raise RuntimeError(f"baseline interpreter failed: rc={p.returncode} {p.stderr[-400:]}")
         outs.append(json.loads(p.stdout.strip().splitlines()[-1])[0])
@@ -266,6 +302,9 @@ def diff(a, b):
         return "str(chart) / repr(chart) differ from the fresh interpreter's"
     if not a["ok"] and a["err"] != b["err"]:
         return f"error differs: fresh {a['err']} vs here {b['err']}"
+    if a["ok"] and a.get("answers") != b.get("answers"):
+        da = [(x, y) for x, y in zip(a.get("answers") or [], b.get("answers") or []) if x != y][:2]
+        return f"the returned chart answers public queries differently: (fresh interpreter, here) = {da}"
     if a["logs"] != b["logs"]:
         return f"warnings differ: fresh interpreter emitted {len(a['logs'])}, here {len(b['logs'])} (first fresh: {a['logs'][:1]}, first here: {b['logs'][:1]})"
     return None
@@ -396,7 +435,18 @@ def history(rec, rng, texts, base, steps):
             i = rng.randrange(len(texts))
         seq.append(i)
         t = texts[i]
-        got = outcome_of(t["text"], t["want"], t.get("path_bytes_hex"))
+        if prev is not None and texts[prev]["kind"].startswith("failing") and r > 0.5:
+            # `try: parse(primary) except: parse(backup)`: this parse runs INSIDE the handler of the previous, failed one
+            got = None
+            try:
+                harness.Chart.from_file(io.StringIO(texts[prev]["text"], newline=""))
+            except Exception:  # noqa
+                got = outcome_of(t["text"], t["want"], t.get("path_bytes_hex"))
+                rec.cls("history:parsed_inside_the_except_handler_of_a_failed_parse")
+            if got is None:
+                got = outcome_of(t["text"], t["want"], t.get("path_bytes_hex"))
+        else:
+            got = outcome_of(t["text"], t["want"], t.get("path_bytes_hex"))
         rec.ev()
         d = diff(base[i], got)
         if d:
